@@ -21,6 +21,8 @@ def compare(ck, texts, impl_outs=None):
     louts = ck.lean_batch(req) if req else []
     bad = []
     hyp = []
+    ast_pairs = {}
+    compare.ast_pairs = ast_pairs
     for k, lo in zip(idx, louts):
         f = impl_outs[k].split("\t")
         g = lo.split("\t")
@@ -53,6 +55,8 @@ def compare(ck, texts, impl_outs=None):
                 a, b = iv[3], mv[3]
                 i = next((i for i, (x, y) in enumerate(zip(a, b)) if x != y), min(len(a), len(b)))
                 bad.append((k, "ast", "at %d: impl …%s  model …%s" % (i, a[max(0, i - 60):i + 60], b[max(0, i - 60):i + 60])))
+                if len(ast_pairs) < 60:
+                    ast_pairs[k] = (f, mv)
             elif iv[2] != mv[2]:
                 bad.append((k, "value", "impl %s model %s" % (iv[2][:80], mv[2][:80])))
             elif iv[1] != mv[1]:
@@ -104,3 +108,31 @@ def light_tie(ck, what):
         ck.report("corr:T1-parser", "the parser model no longer matches the real parser (%s): the specification of this check reads patterns with the model parser" % kind,
                   dict(invocation="assert_struct!(%s)" % texts[k], kind=kind, detail=d, disagreements=len(bad), broken="correspondence T1/parser"), no_input=True)
     return bad
+
+
+def tree_violations(ck, texts, what_for):
+    """For inputs both parsers accept with DIFFERENT syntax trees (left by the last `compare`): does the pattern tree the macro records
+    (read off the real expansion) differ from the tree of the pattern as the model parser - sound for the declarative grammar - reads
+    it?  Then the recorded tree does not mirror what was written: a violation of C14 with the input (node kinds, child order, rest
+    flags, parents, positions).  Differences that do not reach the recorded tree are left to the correspondence report."""
+    import t2
+    pairs = getattr(compare, "ast_pairs", {})
+    if not pairs:
+        return 0
+    ks = sorted(pairs)
+    outs = ck.lean_batch(["expand\t%s\t%s" % (pairs[k][1][3], pairs[k][0][2]) for k in ks])
+    n = 0
+    for k, lo in zip(ks, outs):
+        g = lo.split("\t")
+        f = pairs[k][0]
+        if g[0] != "ok" or len(f) < 7:
+            continue
+        ta = t2.node_table(f[6][6:-1].split(" "))
+        tb = t2.node_table(g[2][6:-1].split(" "))
+        if ta is None or tb is None or ta == tb:
+            continue
+        n += 1
+        diffs = ["%s: recorded %s | as written %s" % (x, ta.get(x), tb.get(x)) for x in sorted(set(ta) | set(tb)) if ta.get(x) != tb.get(x)]
+        ck.report("tree-differs:" + hexs(texts[k])[:40], "the pattern tree the macro records for an accepted invocation (node kinds, child order, rest flags, parents, source positions) is not the tree of the pattern as written",
+                  dict(invocation="assert_struct!(%s)" % texts[k], per_node="(kind, children, rest, parent, position)", differences=diffs[:6]))
+    return n
